@@ -118,8 +118,8 @@ def _shards():
     out = []
     for d in DOCS:
         for b in range(8):
-            for half in (0, 1):
-                out.append({"doc": d, "bits": b, "seq": False, "half": half})
+            for part in (0, 1, 2):
+                out.append({"doc": d, "bits": b, "seq": False, "part": part})
     out += [{"doc": "Q1", "bits": 7, "seq": True}, {"doc": "Q5", "bits": 0, "seq": True}, {"doc": "Q4", "bits": 7, "seq": True}]
     return out
 
@@ -128,7 +128,7 @@ SHARDS = _shards()
 QUICK = [i for i, s in enumerate(SHARDS) if s["doc"] == "Q1" or s["bits"] in (0,) or (s["doc"] in ("Q3", "Q5") and s["bits"] == 7) or s["seq"]]
 
 
-@obligation(tier="quick", timeout=200, shards=SHARDS, quick_shards=QUICK,
+@obligation(tier="quick", timeout=360, thorough_timeout=900, shards=SHARDS, quick_shards=QUICK,
             samples=[{"k": 3, "kind": 1, "payload": 0}, {"k": 5, "kind": 4, "payload": 2**31}],
             symbolic=["payload: int (unbounded) returned at the fault point"],
             selectors=["k: fault point over every field instance of the request", "kind: 0..8", "shard: document, nullability layout, sequential/concurrent coercion"],
@@ -141,9 +141,12 @@ def c02_single(k: int, kind: int, payload: int) -> bool:
     sh = shard()
     doc, bits = sh["doc"], sh["bits"]
     pts = POINTS[doc]
-    if "half" in sh:            # fault points split in two halves per shard
-        mid = (len(pts) + 1) // 2
-        k = pick(k, mid) if sh["half"] == 0 else mid + pick(k, len(pts) - mid)
+    if "part" in sh:            # fault points split in three parts per shard
+        n3 = (len(pts) + 2) // 3
+        lo = sh["part"] * n3
+        k = lo + pick(k, max(1, min(n3, len(pts) - lo)))
+        if k >= len(pts):
+            return True
     else:
         k = pick(k, len(pts))
     kind = pick(kind, NK)
